@@ -10,6 +10,7 @@ import MambaVerif.Props.C02
 import MambaVerif.Model.Imports
 import MambaVerif.Model.ClassOrder
 import MambaVerif.Model.Pipeline
+import MambaVerif.Model.Diag
 
 open MV
 
@@ -52,6 +53,18 @@ def handle (mode : String) (payload : String) : String :=
         hexOfBytes (renderToks ts).toUTF8 ++ "\t" ++ parsed
       | none => "bad core"
     | none => "bad sexp"
+  | "render" =>
+    -- same payload as the harness: `<haspos> l1 c1 l2 c2 <hex msg> <hex path|-> <hex source|-> <n> (l1 c1 l2 c2 <hex msg>)*`
+    let ws := (payload.splitOn " ")
+    let nat (i : Nat) : Nat := (ws.getD i "0").toNat?.getD 0
+    let str (i : Nat) : Option String := if ws.getD i "-" == "-" then none else unhexString (ws.getD i "")
+    let pos : DPos := ⟨nat 1, nat 2, nat 3, nat 4⟩
+    let n := nat 8
+    let causes := (List.range n).map fun k => (⟨⟨nat (9 + 5 * k), nat (10 + 5 * k), nat (11 + 5 * k), nat (12 + 5 * k)⟩,
+      (unhexString (ws.getD (13 + 5 * k) "")).getD ""⟩ : DCause)
+    match formatErr ((unhexString (ws.getD 5 "")).getD "") (str 6) (if ws.getD 0 "0" == "1" then some pos else none) (str 7) causes with
+    | some t => "ok " ++ hexOfBytes t.toUTF8
+    | none => "PANIC"
   | "proj" =>
     -- payload: `<pre paths comma separated or -> <file>*` with file = `rel:label` (label g|p|t|x = good, parse, type, gen error)
     match (payload.splitOn " ").filter (· != "") with
